@@ -7,7 +7,7 @@ import random
 from . import apisurface
 from . import oracle as _oracle
 
-HASHSEEDS = (0, 1, 2, 3)
+HASHSEEDS = (0, 1, 2, 3, 11, 42, 1234, 99999)
 UNIT_SIZES = (0, 1, 1, 2, 2, 3, 3, 5, 8, 20)
 CLOCKS = (
     ["0001-01-01T00:00:00"],
@@ -20,7 +20,7 @@ CLOCKS = (
 GIT_OK = ("ok:0.4.1", "ok:0.4.1-12-gdeadbee-dirty", "ok:a32a887", "ok:v1.0.0-rc.1+build/7", "empty")
 GIT_HANDLED = ("exit128", "exit1", "signal")
 GIT_UNHANDLED = ("enoent", "eacces", "badbytes")
-STRAY = ("README", "meters.hh~", ".meters.hh.swp", "BUILD.bazel", "notes.txt", "backup.d", "#feet.hh#", "units.hh.orig")
+STRAY = ("README", "meters.hh~", ".meters.hh.swp", "BUILD.bazel", "notes.txt", "backup.d", "#feet.hh#", "units.hh.orig", "old_units.lnk", "seconds.hh.rej", ".DS_Store", "CMakeLists.txt.bak")
 VERSION_IDS = ("0.4.1", "0.4.1-12-gdeadbee-dirty", "sim build 7", "x")
 OPEN_ERRNOS = ("ENOENT", "ENOENT", "EACCES", "EMFILE", "EIO")
 WRITE_ERRNOS = ("EPIPE", "ENOSPC", "EIO", "EAGAIN")
@@ -302,6 +302,13 @@ def sweep_variants(plan, twin, tier):
         variants.append({"variant": "sweep-git-%s" % g, "faults": [], "env": {"git": g}})
     for st in ("norepo", "untracked"):
         variants.append({"variant": "sweep-gitrepo-%s" % st, "faults": [], "env": {"git_repo": st}})
+    # other benign environments, one at a time: line endings, stray directory entries, every clock
+    variants.append({"variant": "sweep-crlf", "faults": [], "env": {"crlf": not plan["env"].get("crlf", False)}})
+    variants.append({"variant": "sweep-strays", "faults": [], "env": {"extra_entries": {UNITS_DIR: list(STRAY), CONSTANTS_DIR: list(STRAY), "au/code/au": list(STRAY[:4])}}})
+    for i, clk in enumerate(CLOCKS):
+        variants.append({"variant": "sweep-clock-%d" % i, "faults": [], "env": {"clock": list(clk)}})
+    for mode, bs in (("block", 65536), ("block", 1048576), ("line", 4096), ("unbuffered", 4096)):
+        variants.append({"variant": "sweep-stdout-%s-%d" % (mode, bs), "faults": [], "env": {"stdout_mode": mode, "stdout_bufsize": bs}})
     return variants
 
 
